@@ -467,6 +467,87 @@ func c05Endings(tier string, i int) CaseResult {
 	return cr
 }
 
+// c05GiveUps: server-issued requests that are given up before they are even written (context
+// already cancelled, parameters that cannot be encoded, a full event queue): they return an error
+// and, like every other ending, leave nothing pending behind.
+func c05GiveUps(tier string, i int) CaseResult {
+	combos := [][2]string{{"ss", "pre-cancelled"}, {"ls", "pre-cancelled"}, {"ss", "unencodable-params"}, {"ls", "unencodable-params"}, {"ls", "queue-full"}} // (the Streamable server has no queue: a send to a stalled stream simply waits)
+	mode, kind := combos[i][0], combos[i][1]
+	cr := CaseResult{Desc: fmt.Sprintf("mode=%s server-issued request given up: %s (5 times)", mode, kind), Nontrivial: true}
+	var viol []explore.Violation
+	obs := &hx.Log{}
+	k := func(s string) string { return s + ":" + mode + ":" + kind }
+	res := vsched.Run(vsched.Config{}, func() {
+		w, err := c05New(mode, 1, true)
+		if err != nil {
+			viol = append(viol, V("setup-handshake-fails", "setting the scenario up with well-behaved peers fails: %v", err))
+			return
+		}
+		send := func(ctx context.Context, params interface{}) error {
+			req := &mcp.JSONRPCRequest{JSONRPC: "2.0"} // the server assigns the id
+			req.Method = "roots/list"
+			req.Params = params
+			var e error
+			if w.r.SSE != nil {
+				_, e = w.r.SSE.SendRequest(mergeCtx(ctx, mcp.VerifSessionContextSSE(w.r.SSE, w.sid(0))), w.sid(0), req)
+			} else {
+				_, e = w.r.Server.SendRequest(ctx, w.sid(0), req)
+			}
+			return e
+		}
+		if kind == "queue-full" {
+			w.peers[0].Stream.Stall(true)
+			for n := 0; n < 130; n++ {
+				w.send(0, fmt.Sprintf("fill%d", n), 0)
+			}
+		}
+		errs := 0
+		for n := 0; n < 5; n++ {
+			ctx, cancel := vcontext.WithCancel(context.Background())
+			done := &hx.Flag{}
+			var e error
+			switch kind {
+			case "pre-cancelled":
+				cancel()
+				vsched.Go("request", func() { e = send(ctx, nil); done.Set() })
+			case "unencodable-params":
+				vsched.Go("request", func() { e = send(ctx, map[string]interface{}{"c": make(chan int)}); done.Set() })
+			case "queue-full":
+				vsched.Go("request", func() { e = send(ctx, nil); done.Set() })
+			}
+			vsched.Quiesce()
+			if !done.Get() { // a request that waits (e.g. behind a stalled reader) is given up by its caller
+				cancel()
+				vsched.Quiesce()
+			}
+			cancel()
+			if !done.Get() {
+				viol = append(viol, V(k("request-hangs"), "the request did not return after its context was cancelled; blocked: %v", vsched.LiveThreads()))
+				return
+			}
+			if e != nil {
+				errs++
+			}
+		}
+		if kind != "queue-full" && errs != 5 {
+			viol = append(viol, V(k("no-error"), "%d of 5 given-up requests returned without an error", 5-errs))
+		}
+		if kind == "queue-full" {
+			w.peers[0].Stream.Stall(false)
+		}
+		vsched.Quiesce()
+		if p := pendingOf(w.r); p != 0 {
+			viol = append(viol, V(k("pending-left"), "%d server->client requests are still pending after 5 requests were given up (%s)", p, kind))
+		}
+		obs.Add("errs=%d", errs)
+	})
+	o := finishOutcome(res, obs, viol, true)
+	cr.ObsKey = cr.Desc + o.ObsKey
+	cr.Violations = o.Violations
+	cr.Broken = o.Broken
+	return cr
+}
+
 // ---- accounting BFS ---------------------------------------------------------------------
 
 type c05Ev struct {
@@ -680,6 +761,8 @@ func init() {
 	c20Extra = append(c20Extra, "c05/notify/ss/pad0", "c05/roots/ss/two-sessions", "c05/roots/ls/two-sessions")
 	RegisterEnum(&Enum{Name: "c05/endings", Doc: "how a server-issued request ends (answer, error answer, ctx cancel, 30 s virtual time-out, stream closed) on Streamable, legacy SSE and stdio servers; nothing stays pending",
 		Count: func(string) int { return 15 }, Eval: c05Endings})
+	RegisterEnum(&Enum{Name: "c05/giveups", Doc: "server-issued requests given up before they are written (context already cancelled, unencodable parameters, full event queue behind a stalled reader), five in a row, on the Streamable and legacy SSE servers: an error is returned and nothing stays pending",
+		Count: func(string) int { return 5 }, Eval: c05GiveUps})
 	RegisterEnum(&Enum{Name: "c05/accounting", Doc: "BFS over {open, reopen, close, delete, send, broadcast, filtered(subset)} on 3 sessions with a reference model of who receives what and of the reported counts",
 		Count: func(string) int { return 1 }, Eval: c05BFS})
 	RegisterCheck("C05", func(c *Ctx) {
@@ -699,6 +782,7 @@ func init() {
 			}
 		}
 		c.Enumerate("c05/endings")
+		c.Enumerate("c05/giveups")
 		c.Enumerate("c05/accounting")
 	})
 	_ = sort.Strings
